@@ -1062,6 +1062,10 @@ caption_command(vbi_decoder *vbi, struct caption *cc,
 			erase_memory(cc, ch, ch->hidden);
 			erase_memory(cc, ch, ch->hidden ^ 1);
 
+			/* The displayed memory changed: tell the client
+			   (word_break() above is silent in pop-on mode). */
+			clear(ch->pg + (ch->hidden ^ 1));
+
 			ch->mode = MODE_ROLL_UP;
 			ch->roll = roll;
 
